@@ -37,6 +37,8 @@
   inline_eq_spec_zones_partial
   spec_leaf_dyn_witness
   inline_real_eq_runtime_illformed_partial
+  inline_real_seq_illformed_partial
+  seq_more_fuel_same_answers_and_loader
 -/
 import Genshi.Lemmas.InclErase
 import Genshi.Lemmas.InclSpec
@@ -44,6 +46,7 @@ import Genshi.Lemmas.InclGuard
 import Genshi.Lemmas.InclIllSim
 import Genshi.Lemmas.InclSeq
 import Genshi.Lemmas.InclSpecZ
+import Genshi.Lemmas.InclLog
 import Genshi.Gen.Incl
 namespace Genshi.Props.C11
 open Genshi.Incl
@@ -641,6 +644,71 @@ theorem inline_real_seq_eq_runtime_partial (T : List Name) (files : Files) (hH :
       rw [h.1, ih _ h.2 hno.2, renderOn_runtime_cache]
   exact key qs [] (by intro n b h; simp at h) hno
 
+theorem renderOnF_eqUW {T : List Name} {files : Files} (hH : inHW T files = true) (fuel : Nat)
+    (c : Cache) (hc : CacheInv T files c) (q : Req) (hno : (renderOn .runtime files fuel [] q).1 ≠ .fuel) :
+    ((renderOnF .inlineU files fuel c q).1 = .err .syntaxErr ∨
+      (renderOnF .inlineU files fuel c q).1 = (renderOn .runtime files fuel [] q).1) ∧
+    CacheInv T files (renderOnF .inlineU files fuel c q).2 := by
+  have h := renderOn_eqW hH fuel c hc q
+  have hne : (renderOn .inlineM files fuel c q).1 ≠ .fuel := by
+    rcases h.1 with h1 | h1
+    · rw [h1]; simp
+    · rw [h1]; exact hno
+  have hu := renderOn_U_of_M files fuel c q hne
+  have hf := failed_render_keeps_cache_soundU hH fuel c hc q
+  refine ⟨by rw [renderOnF_fst, hu]; exact h.1, ?_⟩
+  unfold renderOnF
+  cases hx : (renderOn .inlineU files fuel c q).1 with
+  | ok evs => simp only; rw [hu]; exact h.2
+  | err e => exact hf
+  | fuel => exact hf
+
+/-- sequences in the code's own inline mode over file sets that may contain ill-formed templates — what `gdrv`
+runs against the real loader in the `ill` shards: whenever run-time mode answers the whole sequence within the
+fuel, the marker-free inline mode with the same fuel answers every request like run-time mode or raises the
+syntax error, the loader keeping what failed renders and failed preparations left -/
+theorem inline_real_seq_illformed_partial (T : List Name) (files : Files) (hH : inHW T files = true)
+    (fuel : Nat) (qs : List Req) (hno : ∀ r ∈ renderSeq .runtime files fuel [] qs, r ≠ .fuel) :
+    All2 (fun a b => a = .err .syntaxErr ∨ a = b)
+      ((renderSeqF .inlineU files fuel [] qs).map (·.1)) (renderSeq .runtime files fuel [] qs) := by
+  have key : ∀ (qs : List Req) (c : Cache), CacheInv T files c →
+      (∀ r ∈ renderSeq .runtime files fuel [] qs, r ≠ .fuel) →
+      All2 (fun a b => a = .err .syntaxErr ∨ a = b)
+        ((renderSeqF .inlineU files fuel c qs).map (·.1)) (renderSeq .runtime files fuel [] qs) := by
+    intro qs
+    induction qs with
+    | nil => intro c _ _; exact .nil
+    | cons q qs ih =>
+      intro c hc hno
+      simp only [renderSeq, List.mem_cons, forall_eq_or_imp] at hno
+      rw [renderOn_runtime_cache] at hno
+      have h := renderOnF_eqUW hH fuel c hc q hno.1
+      simp only [renderSeqF, renderSeq, List.map_cons]
+      rw [renderOn_runtime_cache]
+      exact .cons h.1 (ih _ h.2 hno.2)
+  exact key qs [] (by intro n b h; simp at h) hno
+
+/-- **fuel is only a bound, for sequences and for the loader's state** (every file set, every mode): if no
+request of the sequence runs out of fuel `f`, then with any larger fuel every answer *and the loader's prepared
+templates after every request* — failed requests included: the loads a failed render had performed are the same
+(`logN_eq/logL_eq/logR_eq`) — are the same.  So the depth at which the limit sits can influence a sequence only
+through a request that actually hits it (where the harness applies its saturation test) -/
+theorem seq_more_fuel_same_answers_and_loader (m : Mode) (files : Files) {f g : Nat} (hfg : f ≤ g) (qs : List Req)
+    (hno : ∀ x ∈ renderSeqF m files f [] qs, x.1 ≠ .fuel) :
+    renderSeqF m files g [] qs = renderSeqF m files f [] qs := by
+  have key : ∀ (qs : List Req) (c : Cache), (∀ x ∈ renderSeqF m files f c qs, x.1 ≠ .fuel) →
+      renderSeqF m files g c qs = renderSeqF m files f c qs := by
+    intro qs
+    induction qs with
+    | nil => intro c _; rfl
+    | cons q qs ih =>
+      intro c hno
+      simp only [renderSeqF, List.mem_cons, forall_eq_or_imp] at hno
+      have h1 := renderOnF_fuel_indep m files hfg c q (by rw [← renderOnF_fst]; exact hno.1)
+      simp only [renderSeqF]
+      rw [h1, ih _ hno.2]
+  exact key qs [] hno
+
 /-- **the same conditions of termination, for sequences**: a list of answers none of which is "out of fuel" is
 what the code's inline mode gives for the sequence with some fuel iff it is what run-time mode gives with some
 fuel (recursive and mutually recursive includes, failed requests in the sequence, the loader's state carried
@@ -929,6 +997,12 @@ example : (renderSeqF .inlineU exFail 6 [] exFailReqs).map (·.1) = renderSeq .r
     (renderSeqF .inlineU exFiles 2 [] [(nA, .markup, exData)]).map (·.1) = renderSeq .runtime exFiles 9 [] [(nA, .markup, exData)] := by
   decide +kernel
 
+/-- non-vacuity of `seq_more_fuel_same_answers_and_loader`: the sequence with a failed render, fuel 6 and 9, the
+code's inline mode — answers and prepared templates after every request -/
+example : (renderSeqF .inlineU exFail 6 [] exFailReqs).all (fun x => x.1 != .fuel) = true ∧
+    (renderSeqF .inlineU exFail 9 [] exFailReqs).map (fun x => (x.1, x.2.map (·.1))) =
+      (renderSeqF .inlineU exFail 6 [] exFailReqs).map (fun x => (x.1, x.2.map (·.1))) := by decide +kernel
+
 def nC : Name := ['c', '.', 'h', 't', 'm', 'l']
 /-- `a.html` = `<d><xi:include href="${h0}"/></d>`, `b.html` = `<e>B</e>`,
     `c.html` = `<e><xi:include href="b.html"/><py:if test="s0"><xi:include href="bad.html"/></py:if></e>`,
@@ -959,6 +1033,8 @@ example : (renderSeqF .inlineM exIll 6 [] exIllReqs).map (fun x => (x.1, x.2.map
     [(.err .syntaxErr, [nB, nA]),
      (.ok [.start ['e'], .text ['B'], .stop ['e']], [nB, nA]),
      (.err .syntaxErr, [nB, nA])] := by decide +kernel
+example : (renderSeqF .inlineU exIll 6 [] exIllReqs).map (·.1) = (renderSeqF .inlineM exIll 6 [] exIllReqs).map (·.1) ∧
+    (renderSeq .runtime exIll 6 [] exIllReqs).all (· != .fuel) = true := by decide +kernel
 example : renderSeq .runtime exIll 6 [] exIllReqs =
     [.ok [.start ['d'], .start ['e'], .start ['e'], .text ['B'], .stop ['e'], .stop ['e'], .stop ['d']],
      .ok [.start ['e'], .text ['B'], .stop ['e']],
